@@ -6,9 +6,10 @@ PY = '/venv/bin/python'
 CHECKS = {}   # filled by register()
 
 HISTORY_A = ('; one case in four is judged AFTER a history of aborted subscriptions of the same observable (disposed mid-stream, source error, '
-             'raising consumer, take(n) peek - DESIGN.md E6b)')
+             'raising consumer, take(n) peek; a third of the histories are fed more than the judged stream - DESIGN.md E6b)')
 HISTORY_B = ('; every observable is subscribed, peeked at and abandoned, given a raising consumer, and subscribed again - both full subscriptions must '
-             'deliver the same events (DESIGN.md E6b)')
+             'deliver the same events; two concurrent and three staggered streams through one operator object each owe what a stream processed alone gets; '
+             'inputs are compared with an immutable copy after the run (DESIGN.md E6b)')
 
 
 def register(pid, category, text, note, technique, design_ref):
